@@ -237,6 +237,18 @@ func CheckWord(c WordCase) (v vcase.Verdict) {
 		}
 	}
 
+	// --- the filter-only key .unit, spelt in any form, is rejected as a projection key (an error, not a panic)
+	if s == ".unit" {
+		var pp benchproc.ProjectionParser
+		for _, e := range []string{w, "k," + w, w + "@alpha", w + "@(a b)"} {
+			if _, err := pp.Parse(e, nil); err == nil {
+				v.Failf("Parse(%q) accepted .unit as a projection key", e)
+				return
+			}
+		}
+		v.Label("unit_as_projection_key_rejected")
+	}
+
 	// --- as a key
 	if keyOK && s != ".config" && s != ".unit" {
 		res := &benchfmt.Result{Name: benchfmt.Name("N"), Iters: 1, Values: []benchfmt.Value{{Value: 1, Unit: "u"}}}
@@ -724,7 +736,8 @@ func editProjection0(t *rapid.T, base string) (string, string, bool) {
 	case 1:
 		return base + ",k@" + rapid.SampledFrom([]string{"nope", "Alpha", "numeric", "NUM", "alphabetic", "x", `""`, `" "`, `"alpha "`}).Draw(t, "ord"), "unknown_order", true
 	case 2:
-		return base + " .unit", "unit_in_projection", true
+		// however the key is spelt (bare, quoted, escaped, with an order), .unit is not a projection key
+		return base + " " + rapid.SampledFrom([]string{".unit", `".unit"`, `"\x2eunit"`, `".unit"@alpha`, `".\u0075nit"@(a b)`, ".unit@num"}).Draw(t, "unitspell"), "unit_in_projection", true
 	case 3:
 		if ps := append(positions(base, '('), positions(base, ')')...); len(ps) > 0 {
 			p := ps[rapid.IntRange(0, len(ps)-1).Draw(t, "ppos")]
